@@ -120,7 +120,8 @@ NLowZero(a, n) == NIsZero(NLowBits(a, n))
 
 NIsEven(a) == Len(a) = 0 \/ a[1] % 2 = 0
 
-\* long division: <<floor(a/b), a mod b>>, b # 0 (binary, most significant bit first)
+\* long division: <<floor(a/b), a mod b>>, b # 0.
+\* Reference definition, one bit at a time (kept as the meaning; MC_Base checks the fast version against it):
 RECURSIVE NDivModBits(_, _, _, _, _)
 NDivModBits(a, b, i, q, r) ==
     IF i < 0 THEN <<q, r>>
@@ -128,7 +129,31 @@ NDivModBits(a, b, i, q, r) ==
          IN IF NCmp(r2, b) >= 0
             THEN NDivModBits(a, b, i - 1, NAdd(NMulSmall(q, 2), <<1>>), NSub(r2, b))
             ELSE NDivModBits(a, b, i - 1, NMulSmall(q, 2), r2)
-NDivMod(a, b) == NDivModBits(a, b, NBitLen(a) - 1, << >>, << >>)
+NDivModSlow(a, b) == NDivModBits(a, b, NBitLen(a) - 1, << >>, << >>)
+
+\* Schoolbook division in base 2^15 with a two-limb quotient-digit estimate (Knuth D): the divisor is
+\* normalised so that its top limb is >= 2^14, which makes the estimate at most 2 too large.
+RECURSIVE NFixDigit(_, _, _)
+NFixDigit(bn, rem, qh) == IF qh > 0 /\ NCmp(NMulSmall(bn, qh), rem) > 0 THEN NFixDigit(bn, rem, qh - 1) ELSE qh
+RECURSIVE NDivLimbs(_, _, _, _, _)
+NDivLimbs(an, bn, i, q, rem) ==        \* consumes limbs i..1 of an; q = digits so far (most significant first, reversed later)
+    IF i = 0 THEN <<q, rem>>
+    ELSE LET r1 == NNorm(<<an[i]>> \o rem)
+             n  == Len(bn)
+             qh0 == IF NCmp(r1, bn) < 0 THEN 0
+                    ELSE LET top2 == NLimb(r1, n + 1) * B + NLimb(r1, n)
+                             e == top2 \div bn[n]
+                         IN IF e > B - 1 THEN B - 1 ELSE e
+             qh == NFixDigit(bn, r1, qh0)
+         IN NDivLimbs(an, bn, i - 1, <<qh>> \o q, IF qh = 0 THEN r1 ELSE NSub(r1, NMulSmall(bn, qh)))
+NDivMod(a, b) ==
+    IF Len(b) = 1 THEN (LET r == NDivSmall(a, b[1]) IN <<r[1], NFromNat(r[2])>>)
+    ELSE IF NCmp(a, b) < 0 THEN << << >>, a >>
+    ELSE LET sh == 15 - SmallBitLen(b[Len(b)])
+             an == NShl(a, sh)
+             bn == NShl(b, sh)
+             r  == NDivLimbs(an, bn, Len(an), << >>, << >>)
+         IN << NNorm(r[1]), NShr(r[2], sh) >>
 
 \* value of a little-endian sequence of 16-bit limbs (the trace format)
 RECURSIVE NFromLimbs16From(_, _)
